@@ -494,8 +494,8 @@ namespace c11
     }
     return false;
   }
-  /// mesh part mapping entry that is >= the number of entities the (first) root mesh declares for that dimension,
-  /// or any mapping in a file whose parts cannot be checked against a mesh
+  /// topology="parent" mesh part with a mapping entry that is >= the number of entities the (first) root mesh declares for
+  /// that dimension (the class in which the post-parse topology deduction reads/writes out of bounds)
   inline bool cls_mapping_index(const Sketch& sk)
   {
     std::vector<unsigned long long> sizes;
@@ -503,6 +503,7 @@ namespace c11
     for(auto& l : sk.lines) if(!l.markup && !l.comment && sk.in(l, "MeshPart", "Mapping"))
     {
       unsigned long long d = 0, v = 0; auto it = sk.open_of(l).attrs.find("dim"); if(it == sk.open_of(l).attrs.end() || !parse_index(it->second, d)) continue;
+      auto tt = sk.open_of(l, 1).attrs.find("topology"); if(tt == sk.open_of(l, 1).attrs.end() || tt->second != "parent" || sizes.empty()) continue;
       if(!parse_index(l.txt, v)) continue;
       if(d >= sizes.size() || v >= sizes[d]) return true;
     }
